@@ -38,6 +38,7 @@ def coverage(prop, executed, rejected, tier):
     faults = {k: int(v) for k, v in sorted(total.items()) if k.startswith("fault:")}
     return {
         "evaluations": len(executed),
+        "productive_results_judged": int(total.get("op:resolve", 0) + total.get("op:iter_next", 0) + total.get("op:resolve_all", 0)),
         "distinct_nontrivial": len(nontrivial),
         "rule": RULE,
         "samples": samples,
